@@ -377,7 +377,7 @@ def gen_blobs(tier, rng, n):
         e = pool.gen(rng.randint(1, 3))
         if not xo.well_scoped(e) or "Q[" in str(e):
             continue
-        out.append(base64.b64encode(pickle.dumps((e, rng.sample(xo.NAMES, 3), rng.randrange(1 << 30)))).decode())
+        out.append(base64.b64encode(pickle.dumps((e, rng.sample(xo.NAMES, len(xo.NAMES)), rng.randrange(1 << 30)))).decode())
     return out
 
 
